@@ -25,3 +25,4 @@ META = dict(
          "all 146 097 starts of a 400-year cycle thorough); Go int as Int; float<->int exact below 2^53.",
     technique="Lean 4 proof (induction over run length, omega) + differential correspondence model vs real code",
 )
+READY = True
